@@ -10,6 +10,7 @@ import (
 
 	modbus "github.com/aldas/go-modbus-client"
 	"github.com/aldas/go-modbus-client/server"
+	"simsync"
 )
 
 var currentSim atomic.Pointer[Sim]
@@ -29,6 +30,17 @@ func init() {
 	}
 	modbus.SimBeforeLock, modbus.SimAfterLock = before("client"), after
 	server.SimBeforeLock, server.SimAfterLock = before("server"), after
+	// In the copy of the library that bin/check builds, the mutex fields are of type simsync.RWMutex and the hook calls
+	// above are gone: the mutex methods themselves call in here (see /verif/simsync).
+	simsync.Install(&simsync.Hooks{
+		BeforeLock: before("mu"),
+		AfterLock:  after,
+		Yield: func(l *sync.RWMutex) {
+			if s := currentSim.Load(); s != nil {
+				s.YieldAtTryLock(l)
+			}
+		},
+	})
 }
 
 // Activate makes s the simulator that the lock hooks talk to; the returned function ends that.
